@@ -71,12 +71,41 @@
                   string-table lookups, content_mode, the recursion on fuel) are covered; C12_coverage2: PENDING are OpDuplicate,
                   OpLoad, OpSetVersion, OpCheckCompat, OpSerializeFile (parts exist: C02_load_total for the
                   parser, C17_unwrap_safe_real for the mask unwrap, C13_unique_loop_total for the copies' counter loop; not
-                  composed to the whole call — the fuzzer and the properties' own harnesses cover them). *)
+                  composed to the whole call — the fuzzer and the properties' own harnesses cover them).
+
+   ---- histories over the large alphabet op2 (third package) ----
+   H2 = H12 /\ FI (Tree/NoPanicProofsFiles.v): FI = every file record names an existing model and carries a version that is
+                  the value of an AutosarVersion discriminant (ver_ok), and local file sets name existing files (agent-c07's NFE).
+                  op_wfv: the version argument of create_file is ver_ok — the public API takes an `AutosarVersion`, a Rust enum,
+                  so it IS one of the 21 values; the model's `N` is wider, hence the explicit condition.
+   C12_no_panic2_histories [F tables, U histories]: from the empty world every history of covered_step2 operations whose calls
+                  are well-formed where they run (wf_ops2 / op2_wfh) runs to its end; C12_no_panic2_after_history: one more call.
+                  Covered steps: Op1 (all 26), OpSort, OpSortModel, OpSetVersion, OpCheckCompat, OpSerializeFile, OpSerializeElem.
+   op2_wfh      = op_wf /\ op_wfv /\ SizeOk for Op1; handles / model numbers / file ids exist; ver_ok for set_version; and for
+                  OpSetVersion / OpCheckCompat the WORLD condition TypedU (agent-c17: every stored element type has the datatype
+                  its parent's stored type lists for its name; kept by histories without type-changing moves / copies,
+                  C17_typed_histories).  TypedU is NECESSARY:
+   C12_check_compat_panics_real [F]: a wf_ops history on the regenerated tables (a move that keeps the stored type) after which
+                  f_check RT w 0 1 = Pan _: ArxmlFile::check_version_compatibility / set_version PANIC there, in the model and on
+                  the implementation (findings/C12-panic-check-compat-mixup.json, `avh panics mixup`: 80 scenarios).
+   C12_check_compat_total [U]: in typed worlds (H12, FI, TypedU, PairOK) both calls return.
+   C12_serialize_file_total [U]: ArxmlFile::serialize returns for every file record in an H2 world and keeps H2.
+   C12_coverage_step2: PENDING as steps are OpDuplicate and OpLoad.  Missing, precisely:
+     OpDuplicate  (i) H12 is not kept by a FAILING duplicate: the dropped copy's root keeps `PModel c` for the dropped model number
+                  (agent-c13's class dup_failed) — PMB breaks, and `op_wf` would have to exclude the garbage nodes (no handle to
+                  them exists in the library); (ii) for a successful duplicate the body is new_model, create_file*, copy* (all
+                  covered operations) plus three record updates (root attributes, xml_standalone, local file sets): missing is
+                  the loop induction carrying H2, agent-c10's FilesOwned (file ids of m_files exist) and SizeOk at every copy.
+     OpLoad       the parser is total (C02_load_total); install / merge are proved total by agent-c09 for Good masters only
+                  (Tree/LoadRefineIndex.v); missing: H12 for the loaded tree (checked types, names, values of the parser's
+                  output: RE / RV / RX / CharsLeaf / OriginsRef for install_tree) and totality of the merge for arbitrary H2 worlds. *)
 From AV Require Import Base.Bytes Base.Outcome Hash.HashModel Hash.HashRealEnum Hash.HashRealElement Spec.SpecOps Spec.SpecReal Xml.TablesOk.
 From AV Require Import Tree.Heap Tree.Ops Tree.Script Tree.Inv Tree.NoPanic.
 From AV Require Import Tree.NoPanicProofsBase Tree.NoPanicProofsDepth Tree.NoPanicProofsCopy2 Tree.NoPanicProofsMain Tree.NoPanicReal.
 From AV Require Import Hash.HashRealAttr Tree.Script2 Tree.SortProofsHeap Tree.SortProofsReadyV Tree.IndexProofsNodeInv Tree.NoPanicProofsMoveX Tree.NoPanicFloat
   Tree.NoPanicProofsHist Tree.NoPanicProofsHistReal Tree.NoPanicProofsOp2 Tree.SortProofsReal Tree.NoPanicProofsHistEx.
+From AV Require Import Tree.Compat Tree.CompatTyped Tree.CompatHist1 Tree.Serialize Tree.NoPanicProofsFiles Tree.NoPanicProofsSerFile Tree.NoPanicProofsCompat
+  Tree.NoPanicProofsCompatEx Tree.NoPanicProofsOp2Hist Tree.NoPanicProofsOp2HistReal.
 Open Scope N_scope.
 
 Theorem C12_no_panic_partial :
@@ -241,3 +270,78 @@ Theorem C12_histories_nonvacuous :
   exists w', run_opsF RT tab_element tab_enum nv_check 1048576 [] ex_fmt ex_hist empty_world = Val w' /\
              option_map n_content (w_nodes w' 3) = Some [CData (DString [120; 49])].
 Proof. exact (conj ex_wf ex_runs). Qed.
+
+(* ================= histories over the large alphabet ================= *)
+
+Theorem C12_coverage_step2 : forall o,
+  covered_step2 o = match o with OpDuplicate _ | OpLoad _ _ _ _ => false | _ => true end.
+Proof. exact coverage_step2. Qed.
+
+Theorem C12_no_panic2_histories :
+  forall (check_fn : N -> list N -> res bool) (float_parse : list N -> option N) (fmt : N -> list N)
+         (LATEST name_index name_definition_ref attr_schema_location : N) (root_attrs : list (N * cdata)),
+    (forall fn s, exists b, check_fn fn s = Val b) ->
+    (forall a, In a root_attrs -> to_str tab_attr (fst a) <> None /\ cdata_named tab_enum (snd a)) ->
+    forall l,
+      wf_ops2 RT tab_element tab_attr tab_enum check_fn float_parse fmt LATEST name_index name_definition_ref attr_schema_location
+              root_attrs l empty_world ->
+      exists w', run_ops2F RT tab_element tab_attr tab_enum check_fn float_parse fmt LATEST name_index name_definition_ref
+                           attr_schema_location root_attrs l empty_world = Val w'.
+Proof. exact no_panic2_histories_real. Qed.
+
+Theorem C12_no_panic2_after_history :
+  forall (check_fn : N -> list N -> res bool) (float_parse : list N -> option N) (fmt : N -> list N)
+         (LATEST name_index name_definition_ref attr_schema_location : N) (root_attrs : list (N * cdata)),
+    (forall fn s, exists b, check_fn fn s = Val b) ->
+    (forall a, In a root_attrs -> to_str tab_attr (fst a) <> None /\ cdata_named tab_enum (snd a)) ->
+    forall l w o,
+      run_ops2F RT tab_element tab_attr tab_enum check_fn float_parse fmt LATEST name_index name_definition_ref
+                attr_schema_location root_attrs l empty_world = Val w ->
+      wf_ops2 RT tab_element tab_attr tab_enum check_fn float_parse fmt LATEST name_index name_definition_ref attr_schema_location
+              root_attrs l empty_world ->
+      covered_step2 o = true -> op2_wfh RT tab_element tab_enum w o ->
+      (forall s, run_op2F RT tab_element tab_attr tab_enum check_fn float_parse fmt LATEST name_index name_definition_ref
+                          attr_schema_location root_attrs o w <> Pan s) /\
+      run_op2F RT tab_element tab_attr tab_enum check_fn float_parse fmt LATEST name_index name_definition_ref
+               attr_schema_location root_attrs o w <> Fuel.
+Proof. exact no_panic2_after_history_real. Qed.
+
+(* [F] TypedU cannot be dropped: after this well-formed history the compatibility walk panics *)
+Theorem C12_check_compat_panics_real :
+  wf_ops RT tab_element tab_enum nv_check 1048576 [] ex_fmt mx_hist empty_world /\
+  exists w site,
+    Inv.run_ops RT tab_element tab_enum nv_check 1048576 [] mx_hist empty_world = Val w /\
+    option_map n_parent (w_nodes w 10) = Some (PElem 18) /\
+    f_check RT w 0 1 = Pan site.
+Proof. exact (conj mx_wf mx_panics). Qed.
+
+Theorem C12_check_compat_total :
+  forall (T : tables) (tab_el tab_at tab_en : nametab),
+    tables_ok12 T = true -> PairOK T ->
+    forall w f target,
+      H12 T tab_el tab_at tab_en w -> FI w -> TypedU T w -> f < N.of_nat (List.length (w_files w)) ->
+      (exists r, f_check T w f target = Val r) /\
+      (exists r w', f_set_version T f target w = Val (r, w')).
+Proof.
+  exact (fun T tab_el tab_at tab_en OK HP w f target I F TU L =>
+           conj (np_f_check T tab_el tab_at tab_en OK HP w f target I F TU L)
+                (np_f_set_version T tab_el tab_at tab_en OK HP w f target I F TU L)).
+Qed.
+
+Theorem C12_serialize_file_total :
+  forall (T : tables) (tab_el tab_at tab_en : nametab) (check_fn : N -> list N -> res bool) (LATEST : N)
+         (root_attrs : list (N * cdata)) (float_fmt : N -> list N) (attr_schema_location : N),
+    tables_ok12 T = true ->
+    (forall fn s, exists b, check_fn fn s = Val b) ->
+    (forall k items it, T_cdata T k = Some (CEnum items) -> In it items -> to_str tab_en (fst it) <> None) ->
+    (forall k name cdid req, T_attributes T k = Some (name, cdid, req) -> to_str tab_at name <> None) ->
+    forall w f,
+      H2 T tab_el tab_at tab_en w -> f < N.of_nat (List.length (w_files w)) ->
+      (exists r w', f_serialize T tab_el tab_at tab_en check_fn float_fmt attr_schema_location f w = Val (r, w')) /\
+      (forall r w', f_serialize T tab_el tab_at tab_en check_fn float_fmt attr_schema_location f w = Val (r, w') ->
+                    H2 T tab_el tab_at tab_en w').
+Proof.
+  exact (fun T tab_el tab_at tab_en check_fn LATEST root_attrs float_fmt asl OK CH EO AO w f I L =>
+           conj (np_f_serialize T tab_el tab_at tab_en check_fn LATEST root_attrs float_fmt asl OK CH EO AO w f I L)
+                (fun r w' H => H2_f_serialize T tab_el tab_at tab_en check_fn float_fmt asl EO AO f w r w' H I)).
+Qed.
